@@ -74,14 +74,14 @@ def run(ctx):
             t2 = [(t, re.sub(r"(\d),00\b", r"\1,", cn)) for t, cn in toks]
             if t2 != toks:
                 msgs.append((c, mtgen.rebuild(pre, t2, post))); meta.append("noncanon-amount:%s/%s" % (c, name))
-            for k in range(10 if ctx.tier == "thorough" else 4):
+            for k in range(30 if ctx.tier == "thorough" else 4):
                 r = mtgen.mutate(rng, toks, rng.choice(["ccy", "code", "amount", "dupseq", "delete", "corrupt", "retag"]))
                 if r:
                     msgs.append((c, mtgen.rebuild(pre, r[1], post))); meta.append("mut-%s:%s/%s" % (r[0], c, name))
         # layout-generated bodies
         pre0 = mtgen.split_message(lst[0][1])
         if pre0:
-            for k in range(30 if ctx.tier == "thorough" else 8):
+            for k in range(90 if ctx.tier == "thorough" else 8):
                 g.p_opt = rng.choice([0.2, 0.5, 0.9])
                 r = g.gen("MT" + c)
                 if r:
